@@ -275,6 +275,9 @@ func ExploreConfigs() map[string]*ExploreCfg {
 			RResp: "kill", RState: "kill"},
 			Ev{Name: "ModCreate", Signer: "c2", Svc: "s1", Provs: []string{"p2"}, Cap: 10, Timeout: 1, Rep: true, Freq: 2, Total: -1, Thr: 1,
 				RResp: "pause", RState: "kill"}, eb(1)),
+		"shared": lc("shared", 4, repCall,
+			Ev{Name: "Call", Signer: "c2", Svc: "s1", Provs: []string{"p2"}, Cap: 10, Timeout: 2, Rep: true, Freq: 3, Total: 2}, eb(1),
+			Ev{Name: "Respond", Signer: "p2", Rid: rid(2, 1, 1, 0), Kind: "valid"}),
 		"siblings": lc("siblings", 4, Ev{Name: "ModCreate", Signer: "c1", Svc: "s1", Provs: []string{"p1", "p2"}, Cap: 10, Timeout: 2, Rep: true, Freq: 2, Total: 3, Thr: 1,
 			RResp: "start", RState: "pause", RTgt: 2},
 			Ev{Name: "ModCreate", Signer: "c1", Svc: "s1", Provs: []string{"p2"}, Cap: 10, Timeout: 1, Rep: true, Freq: 2, Total: -1, Thr: 1,
